@@ -145,15 +145,19 @@ def run(ctx):
         if c["fmt"] == "zip":
             c["variants"] = [{"method": rng.choice(["stored", "deflated"])}]
         elif c["fmt"] == "tar":
-            c["variants"] = [{"comp": rng.choice(["", "", "gz", "bz2", "xz"])}]
+            # DON'T-CARE: a plain tar without members is 10240 NUL bytes, no magic to detect
+            c["variants"] = [{"comp": rng.choice(["", "", "gz", "bz2", "xz"] if c["members"] else ["gz", "bz2", "xz"])}]
         else:
             c["variants"] = [{"coder": rng.choice(["copy", "lzma", "lzma2", "mixed"]),
                               "layout": rng.choice(["solid", "perfile", "mixed"]), "enc": rng.random() < 0.4}]
     ctx.log(f"{len(cases)} cases enumerated by TLC")
+    import time
+    t0 = time.time()
     big = [c for c in cases if any(m["kind"] == "oversize" for m in c["members"])]
     big = [dict(c, id="big" + c["id"], n=10_000_000 + c["n"]) for c in big if len(c["members"]) == 1][: 12 if thorough else 3]
     traces = run_workers(ctx, cases, True, "c09")
     traces += run_workers(ctx, big, True, "c09big", nworkers=3, limit=0)       # the default 10 MB limit
+    ctx.log(f"workers done in {time.time() - t0:.1f}s, {len(traces)} traces")
     dbg = [t.pop("dbg") for t in traces]
     br = validate("ArchiveTrace", TRACE_CFG % "property", traces, scratch=ctx.scratch, parallel=12, min_chunk=300,
                   timeout=1800)
